@@ -749,9 +749,11 @@ fn robust2(thorough: bool, seed: u64, out: &mut dyn FnMut(String), late: &mut Ve
         let a = warr(s, |k| hs(k + 3 * si));
         let scal: Vec<Vec<usize>> = (1..=s.len().min(3)).map(|r| vec![1; r]).collect();
         let sc = |j: usize| -> String { format!("{}:{}", show_list(&scal[(j + si) % scal.len()]), hex(spats[(j + si) % spats.len()])) };
-        let lean = !thorough;
+        // quick tier (and the eight extra shapes of the thorough tier): the seven search operations always, a rotating share of the rest;
+        // thorough tier on the nine primary shapes: every operation (a case of 20 000 strings costs ~0.1 s in the model driver and ~0.05 s here)
+        let lean = !thorough || si >= 9;
         // substring search / counting / prefix tests: every one, on every huge shape
-        for (j, op) in INDEX_OPS.iter().enumerate() { out(format!("{op} {a} {}", sc(j))); if thorough { out(format!("{op} {a} {}", sc(j + 1))); out(format!("{op} {a} {}", sc(j + 2))); } }
+        for (j, op) in INDEX_OPS.iter().enumerate() { out(format!("{op} {a} {}", sc(j))); if !lean && j % 2 == 0 { out(format!("{op} {a} {}", sc(j + 1))); } }
         for (j, op) in other_pairs.iter().enumerate() { if !lean || (j + si) % 3 == 0 { out(format!("{op} {a} {}", sc(j))); } }
         for (j, op) in UNARY_OPS.iter().enumerate() { if !lean || (j + si) % 6 == 0 { out(format!("{op} {a}")); } }
         for (j, op) in PAD_OPS.iter().enumerate() {
@@ -768,14 +770,14 @@ fn robust2(thorough: bool, seed: u64, out: &mut dyn FnMut(String), late: &mut Ve
         // (the model's three-operand lifting is quadratic: 0.8 s at 16 385, 15 s at 70 001 — replace stays at <= 20 000 / 33 000 elements)
         if (!lean && n <= 33000) || (n <= 20000 && si % 2 == 0) { late.push(format!("replace {a} {} 1:{} none", sc(0), hex("xy"))); late.push(format!("replace {a} 1:{} 1:{} 1", hex("a"), hex(""))); }
         // array partners: same shape, trailing axis, unit axes
-        if n <= 40000 || thorough {
+        if n <= 40000 {
             let ps = partners(s);
             for (pi, p) in ps.iter().enumerate() {
                 if pi == 1 { continue }   // `[1]` is above
                 let b = warr(p, |k| hp(k + pi));
                 let all: Vec<&str> = PAIR_OPS.iter().chain(STRIP_OPS.iter()).copied().collect();
-                for t in 0..(if lean { 2 } else { all.len() }) { let op = all[(si * 5 + pi * 3 + t * 7) % all.len()]; out(format!("{op} {a} {b}")); }
-                if !lean { out(format!("split {a} {b} none")); out(format!("rsplit {a} {b} {}", warr(p, |k| (k % 4).to_string()))); out(format!("center {a} {} none", warr(p, |k| (k % 9).to_string()))); }
+                for t in 0..(if lean { 2 } else { 5 }) { let op = all[(si * 5 + pi * 3 + t * 7) % all.len()]; out(format!("{op} {a} {b}")); }
+                if !lean && pi != 0 { out(format!("split {a} {b} none")); out(format!("center {a} {} none", warr(p, |k| (k % 9).to_string()))); }
             }
         }
     }
